@@ -90,6 +90,23 @@ def describe_value(v):
     return type(v).__name__
 
 
+_WEIRD = []
+
+
+def weird_chars():
+    """characters that only arise inside multi-character case expansions (the abstraction of upper()/lower() admits them
+    on their own): a model that needs one is not evidence"""
+    if not _WEIRD:
+        from .isets import case_map
+        _WEIRD.append(ISet.of([x for img in list(case_map('upper')[1].values()) + list(case_map('lower')[1].values()) for x in img]).minus(ASCII))
+    return _WEIRD[0]
+
+
+def has_weird(s):
+    w = weird_chars()
+    return isinstance(s, str) and any(w.contains(ord(ch)) for ch in s)
+
+
 class ModuleSweep:
     def __init__(self, modname, tier='quick', nmax=LONG_BOUND, props=('C01', 'C02', 'C15'), time_limit=None):
         self.modname = modname
